@@ -4,7 +4,7 @@ import json, sys
 
 CHECKS = {
  "C20": ("proptest-driven generation of HTTP requests (bodies, content types, query strings); differential against the framework's own extractor composed with deserr::deserialize, in-process on a current-thread runtime",
-         "Valid, ill-typed, arbitrary and malformed bodies with right and wrong content types through AwebJson and AxumJson, and query strings through AwebQueryParameter, for five targets; all outcome classes (value / deserr failure / framework rejection) must be populated or the run is inconclusive (exit 2).",
+         "Valid, ill-typed, arbitrary and malformed bodies with right and wrong content types through AwebJson and AxumJson (with JsonError and with a custom error type rendered as 422 + JSON body; the actix error must downcast to the very deserr error), and query strings through AwebQueryParameter, for five targets; all outcome classes (value / deserr failure / framework rejection) must be populated or the run is inconclusive (exit 2).",
          "Requests are built with actix_web::test::TestRequest and http::Request; sockets, payload size limits and app-level configuration are not exercised. serde_urlencoded never rejects a query string, so the query extractor has no framework-rejection class.", "DESIGN.md §6 C20"),
  "C14": ("proptest-driven generation of failing payloads over plain-key types; containment oracle tying the JsonError / QueryParamError text to the first report of the keep-going run, path read-back",
          "For every generated failing payload the message of both built-in error types must contain the independently rendered path of the first keep-going report, the per-kind facts (value as JSON text, field, key/value with all alternatives, reference did-you-mean suggestion, lengths, detail message) and, for JsonError, the path read back from the message must resolve to the quoted value.",
@@ -13,7 +13,7 @@ CHECKS = {
          "Samples the product cause x level x one/two attributes x base shape (95 combinations reached in the thorough tier); a control batch proves the unpoisoned grammar compiles cleanly; a poisoned item without a derive diagnostic is the 'silently dropped or overrode' case.",
          "Derive-issued diagnostics are recognised by the absence of an rustc error code; items are attributed by span line.", "DESIGN.md §6 C16"),
  "C02": ("proptest-driven generation, differential against a reference interpreter of the documented semantics (multiset of reports, examined payload nodes)",
-         "Every generated (type, payload) is interpreted independently of deserr; the multiset of reports (kind, location, structured content) under an always-Continue error type must match, and every node the interpreter says must be examined was examined. Types include ~40 random derive inputs per seed.",
+         "Every generated (type, payload) is interpreted independently of deserr; the multiset of reports made (kind, location, structured content) under an always-Continue error type must match, the reports HELD BY THE RETURNED ERROR must be the same multiset, and every node the interpreter says must be examined was examined. Types include ~40 random derive inputs per seed.",
          "Only as good as the interpreter (DESIGN.md Appendix A, transcribed from docs and property statements); free-text messages matched by containment.", "DESIGN.md §6 C02"),
  "C05": ("exhaustive enumeration of integers x 30 scalar targets x 2 sources + proptest-driven random scalars; differential against independent i128/u128 arithmetic and exact-decimal float conversion",
          "All integers in [-70000,70000] and all 2^k (+-1) boundaries are enumerated for every scalar target through both sources (exhaustive for that range); random u64/i64/floats/strings sampled.",
@@ -76,6 +76,17 @@ def main():
         pid = p['id']
         if pid in CHECKS:
             tech, text, note, ref = CHECKS[pid]
+            if pid in ("C01","C02","C03","C04","C06","C07","C08","C09","C10","C11","C12","C14","C15"):
+                text += " Thorough tier: the same over 4 independently generated program sets (dv_gen seeds VERIF_SEED + 1000*k) with ~10x the cases."
+            if pid in ("C01","C02","C03","C04","C12"):
+                text += " Thorough also runs a coverage-guided libFuzzer campaign (target oracle_payload: the fuzzer's bytes are the decision stream of the type-directed generator; the oracle of this property is evaluated inside the target)."
+                tech += "; libFuzzer stage (cargo-fuzz) in the thorough tier"
+            if pid == "C13":
+                text += " Thorough also runs a libFuzzer campaign over raw JSON text (target json_bridge)."
+                tech += "; libFuzzer stage in the thorough tier"
+            if pid == "C18":
+                text += " Thorough also runs a libFuzzer campaign (target did_you_mean)."
+                tech += "; libFuzzer stage in the thorough tier"
             checks.append({
                 "property_id": pid,
                 "quick_cmd": f"./run.sh {pid} quick",
